@@ -34,7 +34,7 @@ def reg_atomic():
 def s4run_constants(N, M, DT, tmpw=(), sig=False, shapes=("ok",), dropfirst=True, regatomic=None):
     return {"N": N, "M": M, "DT": set(DT), "CAP": common.channel_capacity(), "TMPW": set(tmpw), "SIG": sig,
             "SHAPES": set(shapes), "DROPFIRST": dropfirst,
-            "REGATOMIC": reg_atomic() if regatomic is None else regatomic}
+            "REGATOMIC": reg_atomic() if regatomic is None else regatomic, "EPIPE": False}
 
 
 def model_check(workdir, name, consts, invariants, properties, workers=8, timeout=900, coverage=False):
